@@ -106,6 +106,27 @@ def check_sequence(case):
                     tol = abs(float(rs) - float(ra)) * 1.5 + 1e-7 if float(ra) > 0 and float(rs) > 0 else 1e-7
                     if (float(ra) == -1) != (xa[i] == -1) or (float(ra) != -1 and abs(xa[i] - float(ra)) > tol):
                         out.fail("interfacial_composition_batch_dependent", "op %d: T=%r g=%r: %r inside an array of %d, %r alone" % (k, T[0], g0[i], xa[i], len(g), float(ra)))
+            elif kind == "icm" and not cfg["binary"]:
+                # multicomponent interfacial composition: an array of Gibbs-Thomson energies vs one call per energy on the cache-free object
+                g = np.array(op["g"], dtype=float)
+                g0 = g.copy()
+                xi = x[0].copy()
+                ca, cb = W.getInterfacialComposition(xi, float(T[0]), g, precPhase=ph)
+                ca2, cb2 = W.getInterfacialComposition(xi, float(T[0]), g, precPhase=ph)
+                if g.tobytes() != g0.tobytes() or xi.tobytes() != x[0].tobytes():
+                    out.fail("argument_modified", "op %d getInterfacialComposition (multicomponent) modified its arguments" % k)
+                ca, cb, ca2 = np.atleast_2d(np.asarray(ca, dtype=float)), np.atleast_2d(np.asarray(cb, dtype=float)), np.atleast_2d(np.asarray(ca2, dtype=float))
+                rt, at = (1e-2, 2e-3) if ordered else (1e-6, 1e-9)
+                if not _same(ca, ca2, rt, at):
+                    out.fail("repeat_differs", "op %d: repeating the multicomponent interfacial-composition query changes the answer" % k, removeCache=True, warm=False)
+                for i in range(len(g0)):
+                    REF.clearCache()
+                    ra, rb = REF.getInterfacialComposition(x[0].copy(), float(T[0]), float(g0[i]), precPhase=ph)
+                    ra, rb = np.asarray(ra, dtype=float).reshape(-1), np.asarray(rb, dtype=float).reshape(-1)
+                    if ca.shape[0] != len(g0) or not _same(ca[i], ra, rt, at) or not _same(cb[i], rb, rt, at):
+                        out.fail("interfacial_composition_batch_dependent", "%s op %d (%s): x=%r T=%r g=%r: %r / %r inside an array of %d, %r / %r alone on a cache-free object" % (case["system"], k, ph, x[0].tolist(), T[0], g0[i],
+                                 ca[i].tolist() if ca.shape[0] == len(g0) else ca.tolist(), cb[i].tolist() if cb.shape[0] == len(g0) else None, len(g0), ra.tolist(), rb.tolist()))
+                        break
             elif kind == "growth" and not cfg["binary"]:
                 i = 0
                 REF.clearCache()
@@ -161,18 +182,18 @@ def _seq(draw):
     T0 = draw(st.floats(*cfg["T"]))
     ops = []
     for _ in range(draw(st.integers(2, 8))):
-        kind = draw(st.sampled_from(["df", "df", "ic" if cfg["binary"] else "growth", "D", "Dt", "clear"]))
+        kind = draw(st.sampled_from(["df", "df", "ic" if cfg["binary"] else "growth", "ic" if cfg["binary"] else "icm", "D", "Dt", "clear"]))
         if kind == "clear":
             ops.append({"kind": "clear"})
             continue
         n = draw(st.sampled_from([1, 1, 2, 3]))
-        if kind in ("ic", "growth"):
+        if kind in ("ic", "growth", "icm"):
             n = 1
         jump = draw(st.sampled_from([0.0, 0.0, 1.0, 25.0, -60.0, 150.0, -200.0]))
         Ts = [float(np.clip(T0 + jump + 7.0 * i, cfg["T"][0], cfg["T"][1])) for i in range(n)]
         xs = [[float(np.clip(b * draw(st.sampled_from([1.0, 1.0, 0.7, 1.3, 0.4])), lo, hi)) for b, (lo, hi) in zip(base, cfg["x"])] for _ in range(n)]
         op = {"kind": kind, "x": xs, "T": Ts, "phase": draw(st.integers(0, 4)), "removeCache": draw(st.booleans())}
-        if kind == "ic":
+        if kind in ("ic", "icm"):
             op["g"] = sorted(10 ** draw(st.floats(0, 4.3)) for _ in range(draw(st.integers(1, 5))))
         if kind == "growth":
             m = draw(st.integers(1, 4))
@@ -221,6 +242,6 @@ def clauses():
         Clause("gamma_prime_retained_cache", _gp_seq, check_sequence, quick=24, thorough=400, shrink=False,
                rule="generator: 2-6 tangent driving-force queries on Ni-Cr-Al gamma prime at independent random compositions/temperatures with the cached composition sets retained between them (region of open finding KF-C09-4: violations of the listed kind are counted as known, anything else is reported); non-trivial: as above"),
         Clause("query_sequences", _seq, check_sequence, quick=64, thorough=1500, shrink=False,
-               rule="generator: 2-8 queries (plus repeats and clearCache) on one thermodynamics object per system {Al-Zr binary, Al-Mg-Si with five stoichiometric phases, Ni-Cr-Al gamma prime}: driving force, interfacial composition (binary) / growth+interfacial composition (multicomponent), interdiffusivity, tracer diffusivity; scalar or array arguments, removeCache on/off, temperature jumps of 1-200 K; "
+               rule="generator: 2-8 queries (plus repeats and clearCache) on one thermodynamics object per system {Al-Zr binary, Al-Mg-Si with five stoichiometric phases, Ni-Cr-Al gamma prime}: driving force, interfacial composition (binary and multicomponent) / growth+interfacial composition (multicomponent), interdiffusivity, tracer diffusivity; scalar or array arguments, removeCache on/off, temperature jumps of 1-200 K; "
                     "oracle: every answer (and every array element) equals the answer of a second object whose caches are discarded before the query, up to the documented 1 J/mol offset; an immediate repeat gives the same answer; ndarray arguments bit-identical; non-trivial: >= 2 queries with a temperature jump, an array argument or a cache clear. Driving-force queries on the order/disorder gamma prime system are made with removeCache=True only (open finding KF-C09-4)"),
     ]
